@@ -45,6 +45,8 @@ var methods = map[string]*ast.FuncDecl{} // "Type.Method"
 var funcsTop = map[string]*ast.FuncDecl{}
 var constVals = map[string]int64{}
 var constOrder []string
+var pkgVars []string
+var unexported = map[string][][2]string{} // struct → unexported (name, type), in source order
 
 func die(f string, a ...interface{}) {
 	fmt.Fprintf(os.Stderr, "xlate/c08: "+f+"\n", a...)
@@ -104,9 +106,19 @@ func load(file string) {
 						}
 						for _, n := range fl.Names {
 							si.fields[n.Name] = ty
+							if !ast.IsExported(n.Name) {
+								unexported[ts.Name.Name] = append(unexported[ts.Name.Name], [2]string{n.Name, ty})
+							}
 						}
 					}
 					structs[ts.Name.Name] = si
+				}
+			}
+			if d.Tok == token.VAR {
+				for _, sp := range d.Specs {
+					for _, n := range sp.(*ast.ValueSpec).Names {
+						pkgVars = append(pkgVars, filepath.Base(filepath.Dir(file))+"."+n.Name)
+					}
 				}
 			}
 			if d.Tok == token.CONST {
@@ -1036,7 +1048,7 @@ func main() {
 			}
 		}
 	}
-	for _, f := range []string{"ProfilePack.go", "ProfileStepSplitPack.go", "ErrorSnapPack1.go"} {
+	for _, f := range []string{"ProfilePack.go", "ProfileStepSplitPack.go", "ErrorSnapPack1.go", "AbstractPack.go"} {
 		files = append(files, filepath.Join(*repo, "lang/pack", f))
 	}
 	sort.Strings(files)
@@ -1088,6 +1100,33 @@ func main() {
 			b.WriteString(fmt.Sprintf("def %stok_%s : List Step.Tok :=\n  %s\n\n", side.def[:1], t, leanTokList(sk)))
 		}
 	}
+	// state an object could carry from one Write to the next: unexported fields, fields assigned inside
+	// Write (embedded writers and own helpers inlined), package-level variables of the three packages
+	stateTypes := append([]string{"AbstractStep", "AbstractService", "AbstractPack"}, all...)
+	b.WriteString("def unexportedFields : List (String × List (String × String)) := [\n")
+	var us []string
+	for _, t := range stateTypes {
+		var fs []string
+		for _, f := range unexported[t] {
+			fs = append(fs, fmt.Sprintf("(%s, %s)", q(f[0]), q(f[1])))
+		}
+		us = append(us, fmt.Sprintf("  (%s, [%s])", q(t), strings.Join(fs, ", ")))
+	}
+	b.WriteString(strings.Join(us, ",\n") + "]\n\n")
+	b.WriteString("def assignedInWrite : List (String × List String) := [\n")
+	var aw []string
+	for _, t := range all {
+		var as []string
+		for _, tok := range skeleton(t, "Write") {
+			if strings.HasPrefix(tok, "assign ") {
+				as = append(as, q(tok))
+			}
+		}
+		aw = append(aw, fmt.Sprintf("  (%s, [%s])", q(t), strings.Join(as, ", ")))
+	}
+	b.WriteString(strings.Join(aw, ",\n") + "]\n\n")
+	b.WriteString("def packageVars : List String := " + leanStrList(pkgVars) + "\n\n")
+
 	// the builders that may be called more than once on one object
 	b.WriteString("def setters : List (String × List Step.Tok) := [\n")
 	var ss []string
